@@ -1,39 +1,65 @@
 (* C17 — group numbers and names form one consistent map.
    Only statements; proofs are in Proofs/GM*.v and Proofs/GroupMapProofs.v, over Model/GroupMap.v.
 
-   The model follows /repo's working tree, which carries four small fixes found with this property
+   The model follows /repo's working tree, which carries small fixes found with this property
    (see known_findings.txt / the evidence notes):
      - Match.populateOtherGroups named Groups()[i] by GroupNameFromNumber(i): wrong when numbers are sparse;
      - Match.GroupByNumber(n) used n as a slot index when n is not a group number (sparse numbers);
      - GroupNumberFromName("") = 0 and overflow on long digit strings when there is no name table;
      - parser.scanGroupOpen left ignoreNextParen set after a condition that is not a plain "(":
-       "(?(?=a)(a)|c)(d)" numbered (d) as 1 and left slot 2 orphaned (pre-scan and main pass disagreed).
+       "(?(?=a)(a)|c)(d)" numbered (d) as 1 and left slot 2 orphaned (pre-scan and main pass disagreed);
+     - 2b27550: under MaintainCaptureOrder/RE2 the main pass read "(?<2>" as group NUMBER 2 although the
+       pre-scan had filed it as the NAME "2"; now both passes file the digits as a name.
 
    [parse f o ts] = (t, mks, its): the table the capture pre-scan builds, the pre-scan's decision per
-   token, and the node the main pass creates per token.  Every theorem is for EVERY token list [ts]
-   satisfying [ts_ok lim mco ecma ts]:
-     lexical  a TNamed name does not start with a digit (the scanner reads such a name as a number);
+   token, and the node the main pass creates per token.  The theorems are for EVERY token list [ts]
+   satisfying [ts_ok_unguarded lim ts]:
+     lexical  a TNamed name does not start with a digit (the scanner reads such a name as a number); the
+              number of a TNumbered token is not negative (it is read off a digit string);
      size     explicit numbers < lim, and lim and the pattern length stay away from 2^31-1, where
-              noteCaptureSlot saturates captop (parser.go:209-215);
-     guard    under MaintainCaptureOrder/RE2 (not ECMAScript, where "(?<2>" is an error) no explicit
-              numbers.  This guard is the known finding [mco_digit_names]; the statements that carry it
-              are named _partial, and C17_*_refuted shows the unguarded statements are false. *)
+              noteCaptureSlot saturates captop (parser.go:209-215).
+   Modelling limit: [TNumbered n] stands for the canonical decimal spelling of n.  Since /repo 5afce6b a
+   spelling with a leading zero ("(?<02>") is rejected under MaintainCaptureOrder; it is outside the token
+   language (the printer of the harness never spells a number with a leading zero).
+
+   Two statements — those about the NAME of an unnamed group — need in addition the
+     guard    under MaintainCaptureOrder/RE2 (not ECMAScript, where "(?<2>" is an error) no explicit numbers
+   ([ts_ok lim mco ecma ts]).  This is the known finding [mco_digit_names]: "(?<2>a)(b)" makes "2" the name of
+   group 1 while the unnamed group 2 is also called "2".  They are named _partial, and C17_*_refuted shows that
+   they are false without the guard: C17_table_well_formed_partial (the strong [wf_tree]), hence
+   C17_maps_consistent when fed with it (the name <-> number round trips).  Everything else is unguarded; the
+   other _partial names are kept as corollaries of the unguarded theorems. *)
 From Verif Require Import Base.Prelude Model.GroupMap Proofs.GMBase Proofs.GroupMapProofs.
 
 (* ---------- the table Parse hands on is well formed (everything below rests on it) ---------- *)
+(* unguarded: the numbers are well formed ([wf_caps]: increasing, 0 first, dense or listed in Capnumlist),
+   Caplist has one entry per group, and that entry is a key of Capnames which holds the group's number — or
+   it is the group's numeral while that numeral is (also) the name of another group ([names_entry_weak]) *)
+Theorem C17_table_well_formed : forall lim f o ts t mks its,
+  ts_ok_unguarded lim ts -> parse f o ts = Ok (t, mks, its) ->
+  wf_weak (mode_ecma o) t.
+Proof. exact parse_wf_weak. Qed.
+Print Assumptions C17_table_well_formed.
+
+(* with the guard: every entry of Caplist is a key of Capnames holding exactly that group's number *)
 Theorem C17_table_well_formed_partial : forall lim f o ts t mks its,
   ts_ok lim (mode_mco f o) (mode_ecma o) ts -> parse f o ts = Ok (t, mks, its) ->
   wf_tree (mode_ecma o) t.
 Proof. exact parse_wf. Qed.
 Print Assumptions C17_table_well_formed_partial.
 
+(* the three notions *)
+Theorem C17_wf_implications : forall ecma t,
+  (wf_tree ecma t -> wf_weak ecma t) /\ (wf_weak ecma t -> wf_caps t).
+Proof. intros ecma t. split; [apply wf_tree_weak|apply ww_caps]. Qed.
+Print Assumptions C17_wf_implications.
+
 (* ---------- numbering_rule ---------- *)
 (* default mode: unnamed groups are 1..u in order of their "("; an explicitly numbered group is
    filed under its number; the distinct names, in order of first appearance, get the successive
-   numbers from u+1 on that are not explicit numbers; nothing else is a group number.
-   (No guard: this is the full statement for the default mode.) *)
+   numbers from u+1 on that are not explicit numbers; nothing else is a group number. *)
 Theorem C17_numbering_rule_default : forall lim o ts t mks,
-  ts_ok lim false false ts ->
+  ts_ok_unguarded lim ts ->
   prescan false false o ts = Ok (t, mks) ->
   let u := Z.of_nat (length (autos mks)) in
   autos mks = map (fun i => 1 + Z.of_nat i) (seq 0 (length (autos mks)))
@@ -48,25 +74,41 @@ Proof. exact numbering_default. Qed.
 Print Assumptions C17_numbering_rule_default.
 
 (* MaintainCaptureOrder / ECMAScript / RE2: pure pattern order — every capturing "(" and every
-   name not seen before gets the next number; a repeated name keeps its (single) entry. *)
-Theorem C17_numbering_rule_ordered_partial : forall lim ecma o ts t mks,
-  ts_ok lim true ecma ts ->
+   name not seen before gets the next number; a repeated name keeps its (single) entry.  "(?<2>" counts
+   as the name "2" (its mark is PName "2"): unguarded. *)
+Theorem C17_numbering_rule_ordered : forall lim ecma o ts t mks,
+  ts_ok_unguarded lim ts ->
   prescan true ecma o ts = Ok (t, mks) ->
   mco_rule (fun s => match t_capnames t with Some m => aget s m | None => None end) 1 [] mks.
 Proof. exact numbering_ordered. Qed.
+Print Assumptions C17_numbering_rule_ordered.
+
+Corollary C17_numbering_rule_ordered_partial : forall lim ecma o ts t mks,
+  ts_ok lim true ecma ts ->
+  prescan true ecma o ts = Ok (t, mks) ->
+  mco_rule (fun s => match t_capnames t with Some m => aget s m | None => None end) 1 [] mks.
+Proof. intros lim ecma o ts t mks H. apply (numbering_ordered lim), (ts_ok_weaken _ _ _ _ H). Qed.
 Print Assumptions C17_numbering_rule_ordered_partial.
 
 (* ---------- prescan_agrees_with_parse ---------- *)
 (* token by token: the main pass creates a capture node exactly where the pre-scan reserved a
-   number, and with that number (also across (?n)/(?x) switches, x-mode comments, conditionals) *)
-Theorem C17_prescan_agrees_with_parse_partial : forall lim f o ts t mks its,
-  ts_ok lim (mode_mco f o) (mode_ecma o) ts -> parse f o ts = Ok (t, mks, its) ->
+   number, and with that number (also across (?n)/(?x) switches, x-mode comments, conditionals, and —
+   since /repo 2b27550 — explicit numbers under MaintainCaptureOrder/RE2): unguarded *)
+Theorem C17_prescan_agrees_with_parse : forall lim f o ts t mks its,
+  ts_ok_unguarded lim ts -> parse f o ts = Ok (t, mks, its) ->
   Forall2 (agrees t) mks its.
 Proof. exact parse_agrees. Qed.
+Print Assumptions C17_prescan_agrees_with_parse.
+
+Corollary C17_prescan_agrees_with_parse_partial : forall lim f o ts t mks its,
+  ts_ok lim (mode_mco f o) (mode_ecma o) ts -> parse f o ts = Ok (t, mks, its) ->
+  Forall2 (agrees t) mks its.
+Proof. intros lim f o ts t mks its H. apply (parse_agrees lim), (ts_ok_weaken _ _ _ _ H). Qed.
 Print Assumptions C17_prescan_agrees_with_parse_partial.
 
 (* ---------- dense_map_bijective (writer remap + Regexp.caps) ---------- *)
-Theorem C17_dense_map_bijective : forall ecma t, wf_tree ecma t ->
+(* needs the numbers only ([wf_caps], which C17_table_well_formed gives without the guard) *)
+Theorem C17_dense_map_bijective : forall t, wf_caps t ->
   let r := compile_maps t in
   (forall k i, group_by_number r k = Some i -> In k (t_caps t) /\ 0 <= i < r_capsize r)
   /\ (forall k, In k (t_caps t) -> exists i, group_by_number r k = Some i)
@@ -79,7 +121,9 @@ Print Assumptions C17_dense_map_bijective.
 (* ---------- maps_consistent ---------- *)
 (* GetGroupNames[i] names GetGroupNumbers[i]; number -> name -> number and name -> number -> name are
    identities (ECMAScript's unnamed groups have the empty name, as documented); GroupByName is
-   GroupByNumber of the looked-up number; Groups()[i] is slot i and carries GetGroupNames[i]. *)
+   GroupByNumber of the looked-up number; Groups()[i] is slot i and carries GetGroupNames[i].
+   Needs the strong [wf_tree], i.e. the guard (C17_table_well_formed_partial): the third, fourth and sixth
+   conjunct are false for "(?<2>a)(b)" under MaintainCaptureOrder (C17_name_number_roundtrip_refuted). *)
 Theorem C17_maps_consistent : forall ecma t, wf_tree ecma t ->
   let r := compile_maps t in
   let nums := t_caps t in
@@ -99,19 +143,42 @@ Theorem C17_maps_consistent : forall ecma t, wf_tree ecma t ->
 Proof. exact maps_consistent. Qed.
 Print Assumptions C17_maps_consistent.
 
+(* what is left of it without the guard (weak well-formedness + C17_names_point_to_groups): the lists
+   have one length, GroupNameFromNumber reads the list, Groups() carries the list, names are not empty, and
+   the name listed for group k is known to GroupNumberFromName and leads to a group — to k itself, unless
+   the name is the numeral of k *)
+Theorem C17_maps_consistent_unguarded : forall ecma t, wf_weak ecma t -> vals_ok t ->
+  let r := compile_maps t in
+  let nums := t_caps t in
+  let names := get_group_names r in
+  length names = length nums
+  /\ (forall i k, nth_error nums i = Some k -> group_name_from_number r k = nth i names [])
+  /\ (forall i k s, nth_error nums i = Some k -> nth_error names i = Some s ->
+        (ecma = true /\ s = [])
+        \/ (s <> [] /\ In (group_number_from_name r s) nums
+                    /\ (group_number_from_name r s = k \/ s = itoa k)))
+  /\ (forall s, group_by_name r s =
+                if group_number_from_name r s <? 0 then None else group_by_number r (group_number_from_name r s))
+  /\ groups_names ecma r = names
+  /\ (ecma = false -> forall s, In s names -> s <> []).
+Proof. exact maps_consistent_weak. Qed.
+Print Assumptions C17_maps_consistent_unguarded.
+
 (* ---------- refs_use_same_map ---------- *)
-(* every number held by Capnames is a group number ... *)
-Theorem C17_names_point_to_groups_partial : forall lim f o ts t mks its,
+(* every number held by Capnames is a group number (unguarded: also the number a digit name holds) ... *)
+Theorem C17_names_point_to_groups : forall lim f o ts t mks its,
+  ts_ok_unguarded lim ts -> parse f o ts = Ok (t, mks, its) -> vals_ok t.
+Proof. exact parse_vals. Qed.
+Print Assumptions C17_names_point_to_groups.
+
+Corollary C17_names_point_to_groups_partial : forall lim f o ts t mks its,
   ts_ok lim (mode_mco f o) (mode_ecma o) ts -> parse f o ts = Ok (t, mks, its) -> vals_ok t.
-Proof.
-  intros lim f o ts t mks its Hok H. destruct (parse_inv _ _ _ _ _ _ H) as [Hp _].
-  exact (prescan_vals lim _ _ o ts t mks (mode_ecma_mco f o) Hok Hp).
-Qed.
+Proof. intros lim f o ts t mks its H. apply (parse_vals lim), (ts_ok_weaken _ _ _ _ H). Qed.
 Print Assumptions C17_names_point_to_groups_partial.
 
 (* ... so "$n"/"${n}", "${name}" and the slot a node with number k is compiled to (mapCapnum: groups,
-   "\n", "\k<name>", "(?(n)") all go through the one number -> slot map *)
-Theorem C17_refs_use_same_map : forall ecma t, wf_tree ecma t -> vals_ok t ->
+   "\n", "\k<name>", "(?(n)") all go through the one number -> slot map.  Needs the numbers only. *)
+Theorem C17_refs_use_same_map : forall t, wf_caps t -> vals_ok t ->
   let r := compile_maps t in
   (forall n, dollar_num r n = group_by_number r n)
   /\ (forall s, dollar_name r s = match r_capnames r with Some _ => group_by_name r s | None => None end)
@@ -119,23 +186,29 @@ Theorem C17_refs_use_same_map : forall ecma t, wf_tree ecma t -> vals_ok t ->
 Proof. exact refs_use_same_map. Qed.
 Print Assumptions C17_refs_use_same_map.
 
-(* ---------- the unguarded statements are false: MaintainCaptureOrder with a digit name ---------- *)
+(* ---------- the former refutation: proved instead ---------- *)
 
 (* (?<2>a)(b)(?<n>c) *)
 Definition c17_wit : list gtok := [TNumbered 2; TLit 0; TClose; TOpen; TLit 1; TClose; TNamed [110]; TLit 2; TClose].
 
-Definition ts_ok_unguarded (lim : Z) (ts : list gtok) : Prop :=
-  Forall tok_lex ts /\ Forall (tok_small lim) ts /\ lim <= maxint32
-  /\ Z.max lim (1 + Z.of_nat (length ts)) + Z.of_nat (length ts) + 1 < maxint32.
-
 Definition C17_prescan_agrees_full : Prop := forall lim f o ts t mks its,
   ts_ok_unguarded lim ts -> parse f o ts = Ok (t, mks, its) -> Forall2 (agrees t) mks its.
+
+(* refuted until /repo 2b27550 (C17_prescan_agrees_refuted, witness c17_wit); now it holds *)
+Theorem C17_prescan_agrees_full_holds : C17_prescan_agrees_full.
+Proof. exact parse_agrees. Qed.
+Print Assumptions C17_prescan_agrees_full_holds.
+
+(* ---------- what is still false without the guard: MaintainCaptureOrder with a digit name ---------- *)
 
 Definition C17_name_number_roundtrip_full : Prop := forall lim f o ts t mks its,
   ts_ok_unguarded lim ts -> parse f o ts = Ok (t, mks, its) ->
   forall k, In k (t_caps t) ->
     let r := compile_maps t in let s := group_name_from_number r k in
     (mode_ecma o = true /\ s = []) \/ (s <> [] /\ group_number_from_name r s = k).
+
+Definition C17_table_well_formed_full : Prop := forall lim f o ts t mks its,
+  ts_ok_unguarded lim ts -> parse f o ts = Ok (t, mks, its) -> wf_tree (mode_ecma o) t.
 
 Lemma c17_wit_ok : ts_ok_unguarded 100 c17_wit.
 Proof.
@@ -150,17 +223,14 @@ Definition c17_wit_res := Eval vm_compute in parse true 0 c17_wit.
 Lemma c17_wit_parse : parse true 0 c17_wit = c17_wit_res.
 Proof. vm_compute. reflexivity. Qed.
 
-(* the pre-scan files "(?<2>" under the NAME "2" (slot 1), the main pass makes it group NUMBER 2 *)
-Theorem C17_prescan_agrees_refuted : ~ C17_prescan_agrees_full.
+(* on the old counter-example the two passes agree: "(?<2>" is the NAME "2" (slot 1) in both *)
+Example C17_prescan_agrees_on_old_witness :
+  match c17_wit_res with Ok (t, mks, its) => Forall2 (agrees t) mks its | _ => False end.
 Proof.
-  intros H. pose proof (H 100 true 0 c17_wit _ _ _ c17_wit_ok c17_wit_parse) as F.
-  inversion F as [|mk it mks its Hag _]; subst.
-  destruct Hag as [k [E [m [Hm Hg]]]]. injection E as <-. injection Hm as <-.
-  vm_compute in Hg. discriminate.
+  vm_compute. repeat (constructor; try (eexists; split; [reflexivity|]; eexists; split; reflexivity)).
 Qed.
-Print Assumptions C17_prescan_agrees_refuted.
 
-(* ... and then GetGroupNames is [0 2 2 n]: number 2 is called "2", but the name "2" means number 1 *)
+(* GetGroupNames is still [0 2 2 n]: number 2 is called "2", but the name "2" means number 1 *)
 Theorem C17_name_number_roundtrip_refuted : ~ C17_name_number_roundtrip_full.
 Proof.
   intros H. pose proof (H 100 true 0 c17_wit _ _ _ c17_wit_ok c17_wit_parse 2) as F.
@@ -168,6 +238,26 @@ Proof.
   specialize (F Hin). vm_compute in F. destruct F as [[E _]|[_ E]]; discriminate.
 Qed.
 Print Assumptions C17_name_number_roundtrip_refuted.
+
+(* hence the strong well-formedness needs the guard too *)
+Theorem C17_table_well_formed_refuted : ~ C17_table_well_formed_full.
+Proof.
+  intros H. apply C17_name_number_roundtrip_refuted.
+  intros lim f o ts t mks its Hok Hp k Hk.
+  destruct (maps_consistent _ _ (H lim f o ts t mks its Hok Hp)) as [_ [_ [H3 _]]]. now apply H3.
+Qed.
+Print Assumptions C17_table_well_formed_refuted.
+
+(* the weak statement on the witness: the entry of the unnamed group 2 is its numeral "2", a key of
+   Capnames that holds 1 *)
+Example C17_witness_weak_entry :
+  match c17_wit_res with
+  | Ok (t, _, _) => get_group_names (compile_maps t) = [[48]; [50]; [50]; [110]]
+                    /\ group_number_from_name (compile_maps t) [50] = 1
+                    /\ group_name_from_number (compile_maps t) 2 = [50]
+  | _ => False
+  end.
+Proof. vm_compute. repeat split; reflexivity. Qed.
 
 (* ---------- non-vacuity ---------- *)
 
@@ -224,7 +314,28 @@ Example C17_witness_conditional :
     /\ mks = [PNone; PNone; PNone; PNone; PAuto 1; PNone; PNone; PNone; PNone; PNone; PAuto 2; PNone; PNone].
 Proof. cbn zeta. eexists _, _, _. split; [vm_compute; reflexivity|]. split; reflexivity. Qed.
 
-(* MaintainCaptureOrder rejects (a)(?<n>b)(?<5>c) (second half of the known finding) *)
-Example C17_witness_mco_rejects :
-  parse true 0 [TOpen; TLit 0; TClose; TNamed [110]; TLit 1; TClose; TNumbered 5; TLit 2; TClose] = Err e_unrecognized_grouping.
-Proof. vm_compute. reflexivity. Qed.
+(* MaintainCaptureOrder with explicit numbers, satisfying the unguarded hypotheses:
+   (?<2>a)(b)(?<2>c)(?<n>d) -> "2" is 1, (b) is 2, the second "2" reuses 1, n is 3 *)
+Example C17_witness_ordered_digits :
+  let ts := [TNumbered 2; TLit 0; TClose; TOpen; TLit 1; TClose; TNumbered 2; TLit 2; TClose; TNamed [110]; TLit 3; TClose] in
+  ts_ok_unguarded 100 ts
+  /\ exists t mks its, parse true 0 ts = Ok (t, mks, its)
+     /\ mks = [PName [50]; PNone; PNone; PAuto 2; PNone; PNone; PName [50]; PNone; PNone; PName [110]; PNone; PNone]
+     /\ its = [ICapture 1; INone; IClose; ICapture 2; INone; IClose; ICapture 1; INone; IClose; ICapture 3; INone; IClose]
+     /\ t_caps t = [0; 1; 2; 3].
+Proof.
+  cbn zeta. split.
+  - unfold ts_ok_unguarded. split; [|split; [|split]].
+    + repeat (apply Forall_cons; [cbn; try exact I; try reflexivity; lia|]); apply Forall_nil.
+    + repeat (apply Forall_cons; [cbn; try exact I; try reflexivity; lia|]); apply Forall_nil.
+    + unfold maxint32. lia.
+    + cbn. unfold maxint32. lia.
+  - eexists _, _, _. split; [vm_compute; reflexivity|]. vm_compute. repeat split; reflexivity.
+Qed.
+
+(* MaintainCaptureOrder used to reject (a)(?<n>b)(?<5>c) (second half of the old finding); since /repo 2b27550 it
+   is accepted, "5" being the name of the third group *)
+Example C17_witness_mco_accepts :
+  exists t mks, parse true 0 [TOpen; TLit 0; TClose; TNamed [110]; TLit 1; TClose; TNumbered 5; TLit 2; TClose]
+    = Ok (t, mks, [ICapture 1; INone; IClose; ICapture 2; INone; IClose; ICapture 3; INone; IClose]).
+Proof. eexists _, _. vm_compute. reflexivity. Qed.
